@@ -4,7 +4,13 @@ CONSTANTS
   MaxReq = 3
   Urls = {"a", "b"}
   DefinedChoices <- AllDefined
-  JailChoices = {FALSE, TRUE}
+  JailChoices = {"no", "long"}
+  LookChoices = {TRUE}
+  Waits = {0}
+  ShortTTL = 5
+  Timed = FALSE
+  Restricted = FALSE
+  ObjVariants = TRUE
   Statuses = {200, 500}
   KCover = 0
 INVARIANTS
